@@ -1,2 +1,29 @@
-From Coq Require Import ZArith.
-From YV Require Import model.AtomicObs.
+(* C19 — no undefined behaviour: under the strict reading of C++ (signed overflow of plain arithmetic undefined)
+   every FIBER operation is defined and equal to the std contract — std::atomic's arithmetic "has no undefined
+   results".  Holds iff the fiber atomics compute in the unsigned counterpart of T; kept apart from
+   Properties_C19.v because it is exactly the finding keyed fiber-signed-overflow-ub. *)
+From Coq Require Import ZArith List Bool.
+Import ListNotations.
+Open Scope Z_scope.
+From YV Require Import model.AtomicCSem model.AtomicStd gen.Gen_fiber_atomic model.AtomicObs proofs.AtomicProofs proofs.AtomicUbProofs.
+
+Theorem c19_fiber_operations_no_ub :
+  forall k o vol f, std_of k o = Some f ->
+  exists g, impl_of BFiber k o vol = Some g /\
+  forall S T spur v a1 a2, True -> no_guard o T v a1 -> ty_of k T = true ->
+    ok T v = true -> ok (arg_ty T o) a1 = true -> ok T a2 = true ->
+    g S T spur v a1 a2 = f S T spur v a1 a2.
+Proof. exact fiber_operations_no_ub. Qed.
+Print Assumptions c19_fiber_operations_no_ub.
+
+Theorem c19_sequences_fiber_no_ub :
+  forall k S T cs v0, ty_of k T = true -> ok T v0 = true -> Forall (call_ok k T) cs ->
+  run_backend BFiber k S T cs v0 = run_backend BStd k S T cs v0.
+Proof. exact fiber_sequences_no_ub. Qed.
+Print Assumptions c19_sequences_fiber_no_ub.
+
+Example c19_witness_overflow_defined :
+  run_backend BFiber KInt (sem_eval true) (CInt 32 true)
+    [Call FAdd false false 1 0; Call PreInc false false 0 0; Call PostDec false false 0 0; Call SubA false false (-2147483648) 0] 2147483647
+  = Some [(-2147483648, 2147483647, 1); (-2147483647, -2147483647, 0); (-2147483648, -2147483647, 0); (0, 0, -2147483648)].
+Proof. vm_compute. reflexivity. Qed.
